@@ -61,6 +61,8 @@ impl<T> BlockNode<T> {
     fn set(&self, index: usize, v: T) {
         unsafe {
             let data = self.data.get_unchecked(index & BLOCK_MASK);
+            #[cfg(may_verif)]
+            crate::verif::cell(crate::verif::Op::CellWrite, data.value.get() as usize);
             data.value.get().write(MaybeUninit::new(v));
         }
     }
@@ -72,6 +74,8 @@ impl<T> BlockNode<T> {
         debug_assert!(id < BLOCK_SIZE);
         unsafe {
             let data = self.data.get_unchecked(id);
+            #[cfg(may_verif)]
+            crate::verif::cell(crate::verif::Op::CellRead, data.value.get() as usize);
             data.value.get().read().assume_init()
         }
     }
@@ -165,6 +169,8 @@ impl<T> Queue<T> {
 
     /// push a value to the back of queue
     pub fn push(&self, v: T) {
+        #[cfg(may_verif)]
+        let _vb = crate::verif::Bracket::new();
         let tail = unsafe { &mut *self.tail.block.unsync_load() };
         let push_index = unsafe { self.tail.index.unsync_load() };
         // store the data
@@ -187,6 +193,8 @@ impl<T> Queue<T> {
 
     /// pop from the queue, if it's empty return None
     pub fn pop(&self) -> Option<T> {
+        #[cfg(may_verif)]
+        let _vb = crate::verif::Bracket::new();
         let backoff = Backoff::new();
         let mut head = self.head.0.load(Ordering::Acquire);
         let mut push_index = self.tail.index.load(Ordering::Acquire);
@@ -232,6 +240,10 @@ impl<T> Queue<T> {
                         // we have to wait if there is enough data
                         // if no any more produce, this will be a dead loop
                         while pop_index >= self.tail.index.load(Ordering::Acquire) {
+                            #[cfg(may_verif)]
+                            if crate::verif::spin_wait() {
+                                continue;
+                            }
                             std::thread::sleep(std::time::Duration::from_millis(10));
                         }
                     }
@@ -246,6 +258,8 @@ impl<T> Queue<T> {
                 }
                 Err(i) => {
                     head = i;
+                    #[cfg(may_verif)]
+                    crate::verif::spin_hint();
                     backoff.spin();
                     push_index = self.tail.index.load(Ordering::Acquire);
                     tail_block = self.tail.block.load(Ordering::Acquire);
@@ -256,6 +270,8 @@ impl<T> Queue<T> {
 
     /// pop from the queue, if it's empty return None
     fn local_pop(&self) -> Option<T> {
+        #[cfg(may_verif)]
+        let _vb = crate::verif::Bracket::new();
         let backoff = Backoff::new();
         let mut head = self.head.0.load(Ordering::Acquire);
         // this is used for local pop, we can sure that push_index is not changed
@@ -319,6 +335,8 @@ impl<T> Queue<T> {
                 }
                 Err(i) => {
                     head = i;
+                    #[cfg(may_verif)]
+                    crate::verif::spin_hint();
                     backoff.spin();
                 }
             }
@@ -327,6 +345,8 @@ impl<T> Queue<T> {
 
     /// pop from the queue, if it's empty return None
     pub fn bulk_pop(&self) -> SmallVec<[T; BLOCK_SIZE]> {
+        #[cfg(may_verif)]
+        let _vb = crate::verif::Bracket::new();
         let mut head = self.head.0.load(Ordering::Acquire);
         let mut push_index = self.tail.index.load(Ordering::Acquire);
         let mut tail_block = self.tail.block.load(Ordering::Acquire);
@@ -387,6 +407,10 @@ impl<T> Queue<T> {
                         // except for the ABA situation
                         // if no any more data pushed, this will be a dead loop
                         while end > self.tail.index.load(Ordering::Acquire) {
+                            #[cfg(may_verif)]
+                            if crate::verif::spin_wait() {
+                                continue;
+                            }
                             std::thread::sleep(std::time::Duration::from_millis(10));
                         }
                     }
@@ -402,6 +426,8 @@ impl<T> Queue<T> {
                 }
                 Err(i) => {
                     head = i;
+                    #[cfg(may_verif)]
+                    crate::verif::spin_hint();
                     push_index = self.tail.index.load(Ordering::Acquire);
                     tail_block = self.tail.block.load(Ordering::Acquire);
                 }
@@ -432,6 +458,8 @@ impl<T> Queue<T> {
 
     /// if the queue is empty
     pub fn is_empty(&self) -> bool {
+        #[cfg(may_verif)]
+        let _vb = crate::verif::Bracket::new();
         let head = self.head.0.load(Ordering::Acquire);
         let head = (head as usize & !(1 << 63)) as *mut BlockNode<T>;
         let (block, id) = BlockPtr::unpack(head);
